@@ -143,12 +143,45 @@ fn months_single(c: &mut Ctx, d: &NaiveDate, n: u32) {
     c.op(&format!("do.addm {y} {n}"), &show_r(&a));
     let s = months_eval(c, d, n, true);
     c.op(&format!("do.subm {y} {n}"), &show_r(&s));
+    // operator forms `NaiveDate + Months` / `- Months`: the value, or a panic exactly when the target year
+    // is out of range (judged against the reference calendar, not against the checked form)
+    for sub in [false, true] {
+        let r = guard(|| if sub { *d - Months::new(n) } else { *d + Months::new(n) });
+        c.op(&format!("dox.dm {} {y} {n}", DIR[sub as usize]), &show_d(&r));
+        let want = ref_months(d, if sub { -(n as i128) } else { n as i128 });
+        let name = if sub { "NaiveDate - Months" } else { "NaiveDate + Months" };
+        match (&r, want) {
+            (Ok(x), Some(w)) => {
+                if ymd(x) != w {
+                    c.fail(&format!("{name}: result is not the clamped day of the target month"), &format!("{} n={n} -> {} want {:?}", desc(d), desc(x), w));
+                }
+                c.count("months-op:date:value");
+            }
+            (Err(()), None) => c.count("months-op:date:panic-year-out-of-range"),
+            (Ok(x), None) => c.fail(&format!("{name}: yields a date although the target year is out of range"), &format!("{} n={n} -> {}", desc(d), desc(x))),
+            (Err(()), Some(w)) => c.fail(&format!("{name}: panics although the target month is in range"), &format!("{} n={n} want {:?}", desc(d), w)),
+        }
+    }
+    if Months::new(n).as_u32() != n {
+        c.fail("Months::new / as_u32 do not carry the count unchanged", &format!("n={n}"));
+    }
     // delegations: NaiveDateTime keeps the time, DateTime<Utc>/<FixedOffset> go through the local value
     let t = gen_time(c);
     let ndt = d.and_time(t);
     for (sub, r) in [(false, &a), (true, &s)] {
         let got = guard(|| if sub { ndt.checked_sub_months(Months::new(n)) } else { ndt.checked_add_months(Months::new(n)) });
         c.op(&format!("dto.nm {} {} {n}", DIR[sub as usize], enc_n(&ndt)), &show_on(&got));
+        // `NaiveDateTime ± Months`: the reference date with the time kept, a panic exactly when there is none
+        {
+            let gop = guard(|| if sub { ndt - Months::new(n) } else { ndt + Months::new(n) });
+            c.op(&format!("dox.nm {} {} {n}", DIR[sub as usize], enc_n(&ndt)), &match &gop { Ok(x) => enc_n(x), Err(()) => "panic".into() });
+            let want = ref_months(d, if sub { -(n as i128) } else { n as i128 });
+            match (&gop, want) {
+                (Ok(x), Some(w)) if ymd(&x.date()) == w && x.time() == t => c.count("months-op:naive:value"),
+                (Err(()), None) => c.count("months-op:naive:panic-year-out-of-range"),
+                _ => c.fail("NaiveDateTime +/- Months: not (the clamped day of the target month, time kept) / panic exactly when the target year is out of range", &format!("{ndt:?} n={n} sub={sub} -> {gop:?} want {want:?}")),
+            }
+        }
         let want = r.clone().map(|o| o.map(|x| x.and_time(t)));
         if got != want {
             c.fail("NaiveDateTime month stepping differs from stepping the date and keeping the time", &format!("{ndt:?} n={n} sub={sub}"));
@@ -157,15 +190,55 @@ fn months_single(c: &mut Ctx, d: &NaiveDate, n: u32) {
         if let Some(dt) = off.from_local_datetime(&ndt).single() {
             let got = guard(|| if sub { dt.checked_sub_months(Months::new(n)) } else { dt.checked_add_months(Months::new(n)) });
             c.op(&format!("dto.zm {} {} {n}", DIR[sub as usize], enc_z(&dt)), &show_oz(&got));
-            zoned_oracle(c, "month stepping", &format!("{dt:?} n={n} sub={sub}"), &dt, got, want.clone());
+            zoned_oracle(c, "month stepping", &format!("{dt:?} n={n} sub={sub}"), &dt, got.clone(), want.clone());
+            zoned_months_op(c, &dt, n, sub, &got);
         }
         if in_utc(&ndt) {
             let dt = ndt.and_utc();
             let got = guard(|| if sub { dt.checked_sub_months(Months::new(n)) } else { dt.checked_add_months(Months::new(n)) });
             c.op(&format!("dto.zm {} {} {n}", DIR[sub as usize], enc_z(&dt)), &show_oz(&got));
+            {
+                // `DateTime<Utc> ± Months`: the naive reference value, a panic exactly when there is none
+                let gop = guard(|| if sub { dt - Months::new(n) } else { dt + Months::new(n) });
+                c.op(&format!("dox.zm {} {} {n}", DIR[sub as usize], enc_z(&dt)), &match &gop { Ok(x) => enc_z(x), Err(()) => "panic".into() });
+                match (&gop, &want) {
+                    (Ok(x), Ok(Some(w))) if x.naive_utc() == *w => c.count("months-op:utc:value"),
+                    (Err(()), Ok(None)) => c.count("months-op:utc:panic"),
+                    _ => c.fail("DateTime<Utc> +/- Months: not the naive value / a panic exactly when there is none", &format!("{dt:?} n={n} sub={sub} -> {gop:?}")),
+                }
+            }
             match (got, &want) {
                 (Ok(g), Ok(w)) if g.map(|x| x.naive_utc()) == *w => c.count("deleg:utc-ok"),
                 _ => c.fail("DateTime<Utc> month stepping differs from the naive value", &format!("{dt:?} n={n} sub={sub}")),
+            }
+        }
+    }
+}
+/// `DateTime<FixedOffset> ± Months`: correspondence, and the oracle "the checked result, a panic exactly on
+/// None" plus, independently of the checked form, "a value has the same offset and the reference wall clock"
+fn zoned_months_op(c: &mut Ctx, dt: &DateTime<FixedOffset>, n: u32, sub: bool, checked: &Result<Option<DateTime<FixedOffset>>, ()>) {
+    let gop = guard(|| if sub { *dt - Months::new(n) } else { *dt + Months::new(n) });
+    c.op(&format!("dox.zm {} {} {n}", DIR[sub as usize], enc_z(dt)), &match &gop { Ok(x) => enc_z(x), Err(()) => "panic".into() });
+    let detail = format!("{dt:?} n={n} sub={sub} -> {gop:?}");
+    match (&gop, checked) {
+        (Ok(x), Ok(Some(w))) if x == w && x.offset() == w.offset() => c.count("months-op:zoned:value"),
+        (Err(()), Ok(None)) => c.count("months-op:zoned:panic"),
+        _ => c.fail("DateTime +/- Months: not the checked result / a panic exactly when the checked form is None", &detail),
+    }
+    if let Ok(x) = &gop {
+        if x.offset() != dt.offset() {
+            c.fail("DateTime +/- Months changed the offset", &detail);
+        }
+        if n == 0 && (x != dt) {
+            c.fail("DateTime +/- Months(0) is not the value itself", &detail);
+        }
+        // reference wall clock (when both wall clocks are NaiveDateTimes)
+        if let (Ok(l), Ok(lx)) = (guard(|| dt.naive_local()), guard(|| x.naive_local())) {
+            if n > 0 {
+                match ref_months(&l.date(), if sub { -(n as i128) } else { n as i128 }) {
+                    Some(w) if ymd(&lx.date()) == w && lx.time() == l.time() => {}
+                    w => c.fail("DateTime +/- Months: the wall clock of the result is not the clamped day of the target month with the time of day kept", &format!("{detail} want {w:?}")),
+                }
             }
         }
     }
@@ -463,6 +536,55 @@ fn misc_single(c: &mut Ctx, d: &NaiveDate) {
     let ns = match m.2 { Ok(n) => n.to_string(), Err(()) => "panic".into() };
     c.op(&format!("do.misc {}", yof(d)), &format!("{qs} {ces} {ns}"));
     c.count(&format!("misc:quarter-{}", qs));
+    let t = gen_time(c);
+    naive_misc(c, &d.and_time(t));
+}
+/// (year, month) of a day number, by search on the independent closed form `day_num`
+fn ym_of_day_num(n: i64) -> (i64, i64) {
+    let mut y = n.div_euclid(366) + 1;
+    while day_num(y + 1, 1, 1) <= n {
+        y += 1;
+    }
+    while day_num(y, 1, 1) > n {
+        y -= 1;
+    }
+    let mut m = 1;
+    while m < 12 && day_num(y, m + 1, 1) <= n {
+        m += 1;
+    }
+    (y, m)
+}
+fn show_misc(m: &Misc) -> String {
+    let qs = match m.0 { Ok(q) => q.to_string(), Err(()) => "panic".into() };
+    let ces = match m.1 { Ok((b, y)) => format!("{} {}", b01(b), y), Err(()) => "panic".into() };
+    let ns = match m.2 { Ok(n) => n.to_string(), Err(()) => "panic".into() };
+    format!("{qs} {ces} {ns}")
+}
+fn judge_misc(c: &mut Ctx, what: &str, detail: &str, m: &Misc, y: i64, mo: i64) {
+    let want_ce = if y >= 1 { (true, y as u32) } else { (false, (1 - y) as u32) };
+    if m.0 != Ok(((mo + 2) / 3) as u32) || m.1 != Ok(want_ce) || m.2 != Ok(month_len(y, mo) as u8) {
+        c.fail(&format!("{what}: quarter / year_ce / num_days_in_month disagree with the calendar"), &format!("{detail} -> {} want year {y} month {mo}", show_misc(m)));
+    }
+}
+/// the inherited `Datelike` defaults on `NaiveDateTime`
+fn naive_misc(c: &mut Ctx, ndt: &NaiveDateTime) {
+    let m: Misc = (guard(|| ndt.quarter()), guard(|| ndt.year_ce()), guard(|| ndt.num_days_in_month()));
+    c.op(&format!("dox.nmisc {}", enc_n(ndt)), &show_misc(&m));
+    let (y, mo, _) = ymd(&ndt.date());
+    judge_misc(c, "NaiveDateTime", &format!("{ndt:?}"), &m, y, mo);
+    c.count("misc:naive-datetime");
+}
+/// … and on `DateTime<FixedOffset>`: they read the wall clock, which may lie in the day before MIN / after
+/// MAX; the reference wall clock is computed from the UTC reading's day number and the offset
+fn zoned_misc(c: &mut Ctx, z: &DateTime<FixedOffset>) {
+    let m: Misc = (guard(|| z.quarter()), guard(|| z.year_ce()), guard(|| z.num_days_in_month()));
+    c.op(&format!("dox.zmisc {}", enc_z(z)), &show_misc(&m));
+    let u = z.naive_utc();
+    let wall = dn(&u.date()) * 86400 + u.time().num_seconds_from_midnight() as i64 + z.offset().local_minus_utc() as i64;
+    let wall_day = wall.div_euclid(86400);
+    let (y, mo) = ym_of_day_num(wall_day);
+    judge_misc(c, "DateTime<FixedOffset>", &format!("{z:?}"), &m, y, mo);
+    c.count(if wall_day < min_dn() || wall_day > max_dn() { "misc:zoned:headroom-wall-clock" } else { "misc:zoned" });
 }
 fn month_num_days(c: &mut Ctx, m0: u32, year: i32) {
     let mo = Month::try_from((m0 + 1) as u8).unwrap();
@@ -489,6 +611,13 @@ fn month_num_days(c: &mut Ctx, m0: u32, year: i32) {
 fn nth_single(c: &mut Ctx, y: i32, m: u32, wd: usize, n: u8) {
     let r = guard(|| NaiveDate::from_weekday_of_month_opt(y, m, WD[wd], n));
     c.op(&format!("do.nth {y} {m} {wd} {n}"), &show_r(&r));
+    // the deprecated panicking alias: the same date, a panic exactly on None
+    #[allow(deprecated)]
+    let rp = guard(|| NaiveDate::from_weekday_of_month(y, m, WD[wd], n));
+    c.op(&format!("dox.nthp {y} {m} {wd} {n}"), &show_d(&rp));
+    if rp.clone().ok() != r.clone().ok().flatten() || r.is_err() {
+        c.fail("from_weekday_of_month: not the value of from_weekday_of_month_opt / a panic exactly on None", &format!("{y} {m} wd={wd} n={n}"));
+    }
     // reference: walk the month and count occurrences of the weekday
     let mut want: Option<(i64, i64, i64)> = None;
     if n >= 1 && in_range(y as i64) && (1..=12).contains(&m) {
@@ -750,6 +879,27 @@ fn time_fields(c: &mut Ctx) {
         }
         Err(()) => c.fail(&format!("NaiveTime::{name}: panicked"), &format!("{t:?} v={v}")),
     }
+    // the constructors' view: on a constructor-built time the result IS from_hms_nano_opt of the new fields,
+    // except that a leap representation may be carried off second :59 (with_second) or put on another second
+    // (with_nanosecond) — the documented "leap second on any second"; exactly those cases are counted apart
+    let strict = n < 1_000_000_000 || s == 59;
+    if strict {
+        let ctor = guard(|| NaiveTime::from_hms_nano_opt(want[0], want[1], want[2], want[3]));
+        match (&r, &ctor) {
+            (Ok(a), Ok(b)) if a == b => c.count("time:ctor-view:agrees"),
+            (Ok(Some(x)), Ok(None)) => {
+                let deviation = (field == 2 && n >= 1_000_000_000 && v < 59) || (field == 3 && (1_000_000_000..2_000_000_000).contains(&v) && s != 59);
+                if !deviation {
+                    c.fail(&format!("NaiveTime::{name}: returns a time the constructor refuses, outside the documented leap-on-any-second cases"), &format!("{t:?} v={v} -> {x:?}"));
+                }
+                c.count(&format!("time:off59:{name} returns a leap representation off second :59 (from_hms_nano_opt refuses these fields)"));
+                if x.nanosecond() < 1_000_000_000 || x.second() == 59 {
+                    c.fail(&format!("NaiveTime::{name}: deviation case does not carry a leap representation off :59"), &format!("{t:?} v={v} -> {x:?}"));
+                }
+            }
+            _ => c.fail(&format!("NaiveTime::{name}: differs from from_hms_nano_opt on the new fields"), &format!("{t:?} v={v} -> {r:?}, constructor {ctor:?}")),
+        }
+    }
     // NaiveDateTime and DateTime<Utc> delegate to the time and keep the date
     let d = gen_date8(c);
     let ndt = d.and_time(t);
@@ -868,6 +1018,7 @@ fn zoned_case(c: &mut Ctx, z: &DateTime<FixedOffset>, kind: usize, arg: i64) {
             let sub = kind == 1;
             let got = guard(|| if sub { z.checked_sub_months(Months::new(v)) } else { z.checked_add_months(Months::new(v)) });
             let want = local.clone().ok().map(|l| guard(|| if sub { l.checked_sub_months(Months::new(v)) } else { l.checked_add_months(Months::new(v)) }));
+            zoned_months_op(c, z, v, sub, &got);
             (format!("dto.zm {} {} {v}", DIR[sub as usize], enc_z(z)), got, want)
         }
         2 => {
@@ -953,6 +1104,7 @@ fn zoned_ops(c: &mut Ctx) {
         }
     };
     zoned_case(c, &z, kind, arg);
+    zoned_misc(c, &z);
     // time(): the time of day of the wall clock
     let tm = guard(|| z.time());
     c.op(&format!("dto.zt {}", enc_z(&z)), &match &tm { Ok(t) => enc_t(t), Err(()) => "panic".into() });
@@ -980,6 +1132,7 @@ fn zoned_edges(c: &mut Ctx) {
         }
     }
     for z in vals.iter() {
+        zoned_misc(c, z);
         for n in [0i64, 1, 12, 13, u32::MAX as i64] {
             zoned_case(c, z, 0, n);
             zoned_case(c, z, 1, n);
